@@ -96,9 +96,30 @@ def gen_c13(engine):
             nb = rng.choice((M - 1, M, M + 1, M + 5, 2 * M + 3))
             ops.append({"op": "send_events", "events": [{"type": "B", "tag": 100 + i} for i in range(max(1, nb))]})
             ops.append({"op": "send", "event": "PROBE", "tag": 4})
+        inflight = engine == "async" and rng.random() < 0.35
+        if inflight:
+            # "the bound never throttles or discards events sent from outside" also while a macrostep is IN FLIGHT:
+            # an awaiting action keeps the run loop inside one event while another task sends more than maxIterations events
+            logic["actions"]["asleep_20000"] = {"eff": [["sleep", 20000]], "async": True}
+            logic["actions"]["tr.TS"] = {"eff": []}
+            cfg["on"]["SLOW"] = {"actions": ["tr.TS", "asleep_20000"]}
+            t0 = 100 * MS
+            for rep in range(rng.choice((1, 1, 2))):
+                nb2 = rng.choice((M + 1, M + 3, 2 * M + 2))
+                ops.append({"op": "send", "event": "SLOW", "tag": 50 + rep, "t": t0, "client": 0, "wait": False, "obs": False})
+                if rng.random() < 0.5:
+                    ops.append({"op": "send_events", "events": [{"type": "B", "tag": 1000 * (rep + 1) + i} for i in range(nb2)],
+                                "t": t0 + 1 * MS, "client": 1, "wait": False, "obs": False})
+                else:
+                    for i in range(nb2):
+                        ops.append({"op": "send", "event": {"type": "B", "tag": 1000 * (rep + 1) + i}, "t": t0 + 1 * MS + i * 100, "client": 1,
+                                    "wait": False, "obs": False})
+                t0 += 100 * MS
+            ops.append({"op": "send", "event": "PROBE", "tag": 7, "t": t0 + 200 * MS, "client": 0})
         sc = {"format": 1, "engine": engine, "seed": seed, "salt": seed % 997, "machine": cfg, "logic": logic, "children": {},
               "ops": ops, "sched": {"tie_seed": seed % 1009}, "line_monitor": True,
-              "c13": {"template": template, "K": Kn, "M": M, "rel": rel, "trigger": trigger, "per_round": info["per_round"]}}
+              "c13": {"template": template, "K": Kn, "M": M, "rel": rel, "trigger": trigger, "per_round": info["per_round"],
+                      "inflight": inflight}}
         n_ext = sum(len(o["events"]) if o.get("op") == "send_events" else 1 for o in ops)
         # budget: every external event may legitimately run a chain of up to ~2M rounds before it is cut
         sc["line_cap"] = 2500 * (2 * M + 60) * (n_ext + 2) + 150_000
@@ -167,6 +188,16 @@ def oracle_c13(sc, res):
                                       f"PROBE tags sent {sent}, received {tags}: the interpreter no longer answers"))
             elif sent and not answered:
                 vios.append(Violation("C13", "unresponsive-after-cut", dict(sig, cut_logged=cut_logged), "PROBE received but no PROBE transition ran"))
+            # external events sent one by one while a macrostep was in flight: every one processed
+            singles = [op["event"]["tag"] for op in sc["ops"] if op.get("op") == "send" and isinstance(op.get("event"), dict)
+                       and op["event"].get("type") == "B"]
+            if singles:
+                gotb = {r[6] for r in res.trace if r[K] == "recv" and r[5] == "B"}
+                missing = [t for t in singles if t not in gotb]
+                if missing:
+                    vios.append(Violation("C13", "bound-discarded-external-events",
+                                          dict(engine=sc["engine"], burst_over_bound=len(singles) > M, chain_cut_before=cut_logged and rounds > 0),
+                                          f"{len(singles)} external events sent while a macrostep was in flight (maxIterations {M}): {len(missing)} never processed"))
             # external burst: every event processed
             for op in sc["ops"]:
                 if op.get("op") == "send_events":
@@ -182,5 +213,5 @@ def oracle_c13(sc, res):
 
 def stats_c13(sc, res):
     i = sc["c13"]
-    return {"tmpl_" + i["template"]: 1, "rel_" + i["rel"]: 1, "repo_lines": int(res.meta.get("lines_total") or 0),
+    return {"tmpl_" + i["template"]: 1, "rel_" + i["rel"]: 1, "inflight_burst": int(bool(i.get("inflight"))), "repo_lines": int(res.meta.get("lines_total") or 0),
             "max_lines_one_loop_iteration": 0, "aborted": 1 if res.meta.get("abort") else 0}
